@@ -588,3 +588,56 @@ fn render_pairs(r: &[(String, Val)]) -> String {
     let parts: Vec<String> = r.iter().map(|(k, v)| format!("{k}: {}", v.render())).collect();
     format!("{{{}}}", parts.join(", "))
 }
+
+/// Canonicalise the element order of every fold's output lists (keeping the lists of one fold
+/// aligned): used where the order of neighbors is not part of the claim (C20: hash order).
+pub fn canon_fold_lists(n: &QNode, prefix: &str, row: &mut Row) {
+    for it in &n.items {
+        if let QItem::Edge(e) = it {
+            let child_prefix = format!("{prefix}{}", e.alias.clone().unwrap_or_default());
+            match &e.kind {
+                EdgeKind::Fold(_) => {
+                    let mut names = vec![];
+                    output_names(&e.node, &child_prefix, &mut names);
+                    if names.is_empty() {
+                        continue;
+                    }
+                    let len = match row.get(&names[0]) {
+                        Some(Val::List(l)) => l.len(),
+                        _ => continue,
+                    };
+                    let mut subs: Vec<Row> = vec![];
+                    let mut ok = true;
+                    for i in 0..len {
+                        let mut r = Row::new();
+                        for nm in &names {
+                            match row.get(nm) {
+                                Some(Val::List(l)) if l.len() == len => {
+                                    r.insert(nm.clone(), l[i].clone());
+                                }
+                                _ => ok = false,
+                            }
+                        }
+                        subs.push(r);
+                    }
+                    if !ok {
+                        continue;
+                    }
+                    for s in subs.iter_mut() {
+                        canon_fold_lists(&e.node, &child_prefix, s);
+                    }
+                    let mut canon = canon_rows(&subs);
+                    canon.dedup_by(|_, _| false);
+                    for nm in &names {
+                        let vals: Vec<Val> = canon
+                            .iter()
+                            .map(|r| r.iter().find(|(k, _)| k == nm).map(|(_, v)| v.clone()).unwrap_or(Val::Null))
+                            .collect();
+                        row.insert(nm.clone(), Val::List(vals));
+                    }
+                }
+                _ => canon_fold_lists(&e.node, &child_prefix, row),
+            }
+        }
+    }
+}
